@@ -6,6 +6,93 @@ package types
 // Ghost functions T, Sum, Ended, Count are declared in /verif/specs/lib/50_vesting.spec.
 
 /*@
+alias CVA github.com/haqq-network/haqq/x/vesting/types.ClawbackVestingAccount
+alias LvDenom github.com/haqq-network/haqq/x/liquidvesting/types.Denom
+uf modaddr(name string) Addr
+
+func (*Denom).GetBaseDenom
+    inline
+func (*Denom).GetDisplayDenom
+    inline
+func (*Denom).GetOriginalDenom
+    inline
+func (*Denom).GetStartTime
+    inline
+func (*Denom).GetEndTime
+    inline
+func (*Denom).GetLockupPeriods
+    inline
+
+// ---- expected keepers of the liquid vesting module (SDK / other modules; assumed contracts)
+func (AccountKeeper).GetAccount
+    trusted
+    params ak, ctx, addr
+    ensures isdyn(result, *CVA) ==> dyn(result, *CVA) != nil && dyn(result, *CVA) < $alloc && ValidCVA(*dyn(result, *CVA))
+            && (*dyn(result, *CVA)).BaseVestingAccount < $alloc && (*dyn(result, *CVA)).BaseAccount != nil
+func (AccountKeeper).SetAccount
+    trusted
+    params ak, ctx, acc
+    pure
+func (AccountKeeper).GetModuleAddress
+    trusted
+    params ak, moduleName
+    pure
+    def modaddr(moduleName)
+func (BankKeeper).SendCoinsFromAccountToModule
+    trusted
+    params bk, ctx, senderAddr, recipientModule, amt
+    modifies bank_bal
+    ensures result == nil ==> bank_bal == bank_move(old(bank_bal), senderAddr, modaddr(recipientModule), amt)
+    ensures result != nil ==> bank_bal == old(bank_bal)
+func (BankKeeper).SendCoinsFromModuleToAccount
+    trusted
+    params bk, ctx, senderModule, recipientAddr, amt
+    modifies bank_bal
+    ensures result == nil ==> bank_bal == bank_move(old(bank_bal), modaddr(senderModule), recipientAddr, amt)
+    ensures result != nil ==> bank_bal == old(bank_bal)
+func (BankKeeper).MintCoins
+    trusted
+    params bk, ctx, moduleName, amt
+    modifies bank_bal, bank_supply
+    ensures result == nil ==> bank_bal == upd(old(bank_bal), modaddr(moduleName), cadd(old(bank_bal)[modaddr(moduleName)], amt)) && bank_supply == cadd(old(bank_supply), amt)
+    ensures result != nil ==> bank_bal == old(bank_bal) && bank_supply == old(bank_supply)
+func (BankKeeper).BurnCoins
+    trusted
+    params bk, ctx, moduleName, amt
+    modifies bank_bal, bank_supply
+    ensures result == nil ==> bank_bal == upd(old(bank_bal), modaddr(moduleName), csub(old(bank_bal)[modaddr(moduleName)], amt)) && bank_supply == csub(old(bank_supply), amt)
+    ensures result != nil ==> bank_bal == old(bank_bal) && bank_supply == old(bank_supply)
+func (BankKeeper).GetBalance
+    trusted
+    params bk, ctx, addr, denom
+    ensures result.Denom == denom && result.Amount == bank_bal[addr][denom] && result.Amount >= 0
+func (BankKeeper).SetDenomMetaData
+    trusted
+    pure
+// the ERC20 module: registration creates a pair; conversions move coins between the bank and the EVM side
+func (ERC20Keeper).RegisterCoin
+    trusted
+    modifies bank_bal, bank_supply
+    ensures result.1 == nil ==> result.0 != nil
+func (ERC20Keeper).ConvertCoin
+    trusted
+    modifies bank_bal, bank_supply
+func (ERC20Keeper).ConvertERC20
+    trusted
+    modifies bank_bal, bank_supply
+func (ERC20Keeper).ToggleConversion
+    trusted
+    pure
+func (ERC20Keeper).GetTokenPairID
+    trusted
+    pure
+func (ERC20Keeper).GetTokenPair
+    trusted
+    pure
+func (ERC20Keeper).BalanceOf
+    trusted
+    pure
+
 // floor of a*S/Tot for 0 <= S <= Tot: between 0 and a, and never over-counting
 lemma FloorBounds(a int, S int, Tot int)
     requires a >= 0 && S >= 0 && Tot > 0 && S <= Tot
@@ -36,6 +123,18 @@ lemma SumSplit(p Periods, a Periods, b Periods, n int)
     requires forall k int :: 0 <= k && k < n ==> cadd(a[k].Amount, b[k].Amount) == p[k].Amount
     ensures cadd(Sum(a, n), Sum(b, n)) == Sum(p, n)
     induction n above 0
+
+// T depends only on the period lengths
+lemma TLenFrame(start int, p Periods, q Periods, i int)
+    requires forall k int :: 0 <= k && k < i ==> p[k].Length == q[k].Length
+    ensures T(start, p, i) == T(start, q, i)
+    induction i above 0
+
+// Count depends only on the period lengths
+lemma CountLenFrame(start int, p Periods, q Periods, i int, t int)
+    requires forall k int :: 0 <= k && k < i ==> p[k].Length == q[k].Length
+    ensures Count(start, p, i, t) == Count(start, q, i, t) && T(start, p, i) == T(start, q, i)
+    induction i above 0
 
 lemma SumNonneg(p Periods, n int)
     requires forall k int :: 0 <= k && k < n ==> cnonneg(p[k].Amount)
@@ -117,6 +216,8 @@ func ExtractUpcomingPeriods
     requires lens: forall k int :: 0 <= k && k < len(periods) ==> periods[k].Length >= 0
     requires end: endDate >= T(startDate, periods, len(periods))
     ensures upcoming: len(result) == len(periods) - c && (forall k int :: 0 <= k && k < len(result) ==> result[k] == periods[c + k])
+    ensures range: 0 <= c && c <= len(periods)
+    ensures amounts: (forall k int :: 0 <= k && k < len(periods) ==> cnonneg(periods[k].Amount)) ==> (forall k int :: 0 <= k && k < len(result) ==> cnonneg(result[k].Amount))
 
 func ExtractPastPeriods
     let c = PastCount(startDate, periods, readTime)
@@ -129,7 +230,7 @@ func ReplacePeriodsTail
     let lr = len(replacement)
     ensures whole: lr >= lp ==> len(result) == lr && (forall k int :: 0 <= k && k < lr ==> result[k] == replacement[k])
     ensures tail: lr < lp ==> len(result) == lp && (forall k int :: 0 <= k && k < lp - lr ==> result[k] == periods[k])
-            && (forall k int :: 0 <= k && k < lr ==> result[lp - lr + k] == replacement[k])
+            && (forall j int :: lp - lr <= j && j < lp ==> result[j] == replacement[j - (lp - lr)])
 
 // time elapsed inside the period that is running at currentTime (0 before the start and after the end)
 func CurrentPeriodShift
